@@ -167,10 +167,17 @@ def run_scenario(sc, work, fixed_cache):
         orig = orig.replace(b"\r\n", b"\n").replace(b"\n", b"\r\n")
     elif sc.get("transform") == "nofinalnl":
         orig = orig.rstrip(b"\r\n")
+    elif sc.get("transform") == "trailws":
+        # trailing blanks that no enabled rule objects to (the scenario disables whitespace_001)
+        orig = orig + b"-- the end   \n"
+    elif sc.get("transform") == "trailws_tagged":
+        orig = orig + b"-- vsg_off whitespace_001\n-- the end   \n-- vsg_on\n"
     target = os.path.join(d, "t.vhd")
     with open(target, "wb") as f:
         f.write(orig)
     os.chmod(target, sc["mode"])
+    if sc.get("hardlink"):
+        os.link(target, os.path.join(d, "second_name.vhd"))     # the file has two names (st_nlink = 2)
     tmp, bak = target + ".tmp", target + ".bak"
     if sc["stale"]:
         with open(tmp, "wb") as f:
@@ -206,7 +213,11 @@ def run_scenario(sc, work, fixed_cache):
         c, m = classify(pth, orig, fixed)
         final[name] = {"content": c, "mode": m}
     st1 = os.stat(target) if os.path.exists(target) else None
+    other = "none"
+    if sc.get("hardlink"):
+        other = classify(os.path.join(d, "second_name.vhd"), orig, fixed)[0]
     rec = {
+        "otherName": other,
         "id": sc["id"], "kind": sc.get("kind", ""), "src": sc["src"], "args": sc["args"], "origMode": sc["mode"], "createMode": 0o666 & ~sc["umask"], "umask": sc["umask"],
         "backup": bool(sc["backup"]), "stale": sc["stale"], "inject": inj or {}, "faulted": bool(inj and "error" in inj), "ev": ev,
         "final": final, "killed": bool(killed or p.returncode in (-9, 137)), "rc": p.returncode,
